@@ -223,7 +223,7 @@ class ExprMixin:
             return r
         if op is ast.Mod and a.sort == STR:
             return self.opaque("strfmt", STR)
-        h = self.binop_hook(n, a, b, st) if hasattr(self, "binop_hook") else None
+        h = self.m.hooks["binop"](self, n, a, b, st) if "binop" in self.m.hooks else None
         if h is not None:
             return h
         self.note("abstracted-binop", f"{a.sort} {op.__name__} {b.sort}", n.lineno)
@@ -260,6 +260,10 @@ class ExprMixin:
 
     def cmp1(self, op, a, b, st, n):
         c = self.ctx
+        if "cmp" in self.m.hooks:
+            h = self.m.hooks["cmp"](self, op, a, b, st, n)
+            if h is not None:
+                return h
         if isinstance(op, (ast.Is, ast.IsNot, ast.Eq, ast.NotEq)):
             r = self.eq(a, b)
             return T(BOOL, f"(not {r.s})") if isinstance(op, (ast.IsNot, ast.NotEq)) else r
@@ -300,7 +304,9 @@ class ExprMixin:
                 return T(BOOL, f"(select {cont.s} {x.s})")
             if s[0] == "Seq":
                 x = self.coerce(x, s[1], "in")
-                return T(BOOL, f"(seq.contains {cont.s} (seq.unit {x.s}))")
+                self.qn = getattr(self, "qn", 0) + 1
+                i = f"|q_in{self.qn}|"
+                return T(BOOL, f"(exists (({i} Int)) (and (>= {i} 0) (< {i} (seq.len {cont.s})) (= (seq.nth {cont.s} {i}) {x.s})))")
             if s[0] == "Opt":
                 return self.contains(unopt(cont), x, st)
         if s == STR and x.sort == STR:
@@ -347,8 +353,8 @@ class ExprMixin:
             if s[0] == "Seq" and not isinstance(k, (TupV, Closure)) and k.sort == INT:
                 ln = f"(seq.len {a.s})"
                 idx = T(INT, f"(ite (>= {k.s} 0) {k.s} (+ {ln} {k.s}))")
-                if isinstance(n.slice, ast.Constant) and n.slice.value >= 0:
-                    idx = k
+                if (isinstance(n.slice, ast.Constant) and n.slice.value >= 0) or (self.spec_mode and not isinstance(n.slice, ast.UnaryOp)):
+                    idx = k  # spec expressions index from the front (contracts never use negative indices)
                 ok = T(BOOL, f"(and (>= {idx.s} 0) (< {idx.s} {ln}))")
                 if self.spec_mode or self.branch(ok, st):
                     return T(s[1], f"(seq.nth {a.s} {idx.s})")
@@ -362,7 +368,7 @@ class ExprMixin:
             if self.spec_mode or self.branch(ok, st):
                 return T(STR, f"(str.at {a.s} {idx.s})")
             raise RaiseEx("IndexError", None, n.lineno)
-        h = self.subscript_hook(n, a, k, st) if hasattr(self, "subscript_hook") else None
+        h = self.m.hooks["subscript"](self, n, a, k, st) if "subscript" in self.m.hooks else None
         if h is not None:
             return h
         f = self.ctx.fun("getitem_" + mangle(a.sort), [a.sort, OBJ, INT], OBJ)
@@ -411,7 +417,7 @@ class ExprMixin:
     def list_of(self, items):
         if items and all(isinstance(i, T) and i.sort == items[0].sort and i.sort != NONE for i in items):
             return self.seq_of(items, items[0].sort)
-        h = self.hetero_list_hook(items) if hasattr(self, "hetero_list_hook") else None
+        h = self.m.hooks["hetero_list"](self, items) if "hetero_list" in self.m.hooks else None
         if h is not None:
             return h
         if not items:
@@ -438,7 +444,7 @@ class ExprMixin:
             for k, v in zip(ks, vs):
                 base = f"(store {base} {k.s} {some(self.ctx, v).s})"
             return T(ms, base)
-        h = self.dict_hook(n, ks, vs, st) if hasattr(self, "dict_hook") else None
+        h = self.m.hooks["dict"](self, n, ks, vs, st) if "dict" in self.m.hooks else None
         if h is not None:
             return h
         return self.opaque("dict")
